@@ -35,7 +35,8 @@ type GraphSpec struct {
 	// (`todo: true`), keeping its declared scope.
 	TodoSinks bool `json:"todo_sinks,omitempty"`
 	// Names: 0 = s<i> / t<i> / p<i>; 1 = dotted names built from one letter ("n", "n.n", "n.n.n", ...), so that
-	// concatenations of two names with a separator coincide for different pairs.
+	// concatenations of two names with a separator coincide for different pairs; 2 = names that differ only in the
+	// case of their letters (names are case-sensitive everywhere).
 	Names int `json:"names,omitempty"`
 	// Quote puts quotation marks into the literal text around parameter references ("%p%", '%p%', `%p%`, and an
 	// unbalanced 5" %p%): quotes in plain text mean nothing to the pattern syntax.
@@ -50,7 +51,28 @@ type GraphSpec struct {
 	TodoTagged bool `json:"todo_tagged,omitempty"`
 }
 
+// caseVariant spells word with the letters chosen by the bits of i in upper case: names that differ only in case.
+func caseVariant(word string, i int) string {
+	b := []byte(word)
+	for k := range b {
+		if i&(1<<k) != 0 {
+			b[k] -= 'a' - 'A'
+		}
+	}
+	return string(b)
+}
+
+func (g GraphSpec) tag(i int) string {
+	if g.Names == 2 {
+		return caseVariant("tagname", i)
+	}
+	return TagName(i)
+}
+
 func (g GraphSpec) svc(i int) string {
+	if g.Names == 2 {
+		return caseVariant("service", i)
+	}
 	if g.Names == 1 {
 		return "n" + strings.Repeat(".n", i)
 	}
@@ -58,6 +80,9 @@ func (g GraphSpec) svc(i int) string {
 }
 
 func (g GraphSpec) param(i int) string {
+	if g.Names == 2 {
+		return caseVariant("param", i)
+	}
 	if g.Names == 1 {
 		return "n" + strings.Repeat(".n", i)
 	}
@@ -133,7 +158,7 @@ func (g GraphSpec) Config() cfg.Config {
 		}
 		for _, e := range g.SvcTagged {
 			if e[0] == i {
-				place(e[2], "!tagged "+TagName(e[1]))
+				place(e[2], "!tagged "+g.tag(e[1]))
 			}
 		}
 		for _, e := range g.SvcParams {
@@ -147,7 +172,7 @@ func (g GraphSpec) Config() cfg.Config {
 		}
 		for _, e := range g.SvcTags {
 			if e[0] == i {
-				s.Tags = append(s.Tags, cfg.Tag{Name: TagName(e[1])})
+				s.Tags = append(s.Tags, cfg.Tag{Name: g.tag(e[1])})
 			}
 		}
 		if g.Decoys && g.Names == 0 {
@@ -191,7 +216,7 @@ func (g GraphSpec) Config() cfg.Config {
 		c.Services = append(c.Services, s)
 	}
 	for d, t := range g.DecTag {
-		dec := cfg.Decorator{Tag: TagName(t), Fn: "fx/lib.Decorate"}
+		dec := cfg.Decorator{Tag: g.tag(t), Fn: "fx/lib.Decorate"}
 		for _, e := range g.DecRefs {
 			if e[0] == d {
 				dec.Args = append(dec.Args, cfg.Str("@"+g.svc(e[1])))
@@ -199,7 +224,7 @@ func (g GraphSpec) Config() cfg.Config {
 		}
 		for _, e := range g.DecTagged {
 			if e[0] == d {
-				dec.Args = append(dec.Args, cfg.Str("!tagged "+TagName(e[1])))
+				dec.Args = append(dec.Args, cfg.Str("!tagged "+g.tag(e[1])))
 			}
 		}
 		for _, e := range g.DecParams {
@@ -270,8 +295,13 @@ func RandomGraph(t *rapid.T, maxSvc, maxTag, maxDec, maxParam int, scopes bool) 
 	}
 	g.Place = rapid.IntRange(0, 2).Draw(t, "place")
 	g.Decoys = rapid.Bool().Draw(t, "decoys")
-	if !g.Decoys && rapid.IntRange(0, 2).Draw(t, "dotted") == 0 {
-		g.Names = 1
+	if !g.Decoys {
+		switch rapid.IntRange(0, 3).Draw(t, "dotted") {
+		case 0:
+			g.Names = 1
+		case 1:
+			g.Names = 2
+		}
 	}
 	g.Quote = rapid.IntRange(0, 2).Draw(t, "quote") == 0
 	return g
